@@ -179,6 +179,23 @@ def install():
 
     TS.TaskScenario.schedule = schedule
 
+    orig_select = TS.TaskScenario._selectBestResources
+
+    def select(self, primary_resources, alternative_resources, effort):
+        out = orig_select(self, primary_resources, alternative_resources, effort)
+        emit(
+            "Select",
+            sc=self.scenarioIdx,
+            task=self.property.fullId,
+            cursor=self.currentSlotIdx,
+            prim=[r.fullId for r in primary_resources],
+            alt=[r.fullId for r in alternative_resources],
+            sel=[r.fullId for r in (out or [])],
+        )
+        return out
+
+    TS.TaskScenario._selectBestResources = select
+
     orig_bookResources = TS.TaskScenario.bookResources
 
     def bookResources(self):
